@@ -21,6 +21,8 @@ import (
 	"encoding/json"
 	"fmt"
 	"os"
+	"regexp"
+	"runtime/debug"
 	"sort"
 	"strings"
 	"sync"
@@ -126,6 +128,7 @@ func main() {
 		return
 	}
 	if mc.IsWorker() {
+		debug.SetMaxStack(64 << 20) // runaway recursion in the code under test dies quickly
 		mc.WorkerMain(handleJob)
 		return
 	}
@@ -275,17 +278,17 @@ func main() {
 		}
 	}
 
-	pool := mc.NewPool(mc.NWorkers(), nil)
+	pool := mc.NewPool(mc.NWorkers(), []string{"GOTRACEBACK=none"}) // a dying worker leaves its fatal line, not 8 KB of goroutine dumps
 	defer pool.Close()
-	horizon := 20 * time.Minute // a shard costs a few seconds; this only classifies hangs
-	runJobs := func(js []job) {
+	horizon := 10 * time.Minute // a shard costs about a second of CPU; this only classifies hangs
+	runJobs := func(js []job, force bool) {
 		live := js
-		if r.Expired() {
+		if r.Expired() && !force {
 			capped = true
 			return
 		}
 		err := pool.Run(len(live), func(i int) interface{} {
-			if r.Expired() {
+			if r.Expired() && !force {
 				capped = true
 				return job{Kind: "shard", Thorough: thorough, From: 0, To: 0, SpecTo: -1}
 			}
@@ -295,53 +298,71 @@ func main() {
 			r.HarnessError("pool: %v", err)
 		}
 	}
-	runJobs(jobs)
+	runJobs(jobs, false)
 	lap("first pass")
 
-	// a shard that killed or hung its worker: find the case, alone, five times
+	// Shards that killed or hung their worker. The earliest one is taken apart case by case (also
+	// after the deadline: a crash may be a violation), its first crashing case is re-run alone four
+	// more times and reported if it fails every time. The other lost shards make the run
+	// non-exhaustive.
 	if len(crashed) > 0 {
-		first := crashed
+		lost := crashed
+		lostInfo := crashInfo
+		firstIdx := 0
+		for i, j := range lost {
+			if j.Kind != "corpus" && (lost[firstIdx].Kind == "corpus" || j.Order0 < lost[firstIdx].Order0) {
+				firstIdx = i
+			}
+		}
+		first := lost[firstIdx]
+		r.Cap(fmt.Sprintf("%d shard(s) lost to worker crashes or hangs, first: %s", len(lost), clip(crashClass(lostInfo[firstIdx]), 120)))
 		crashed, crashInfo = nil, map[int]string{}
 		var singles []job
-		for _, j := range first {
-			if j.Kind == "corpus" {
-				singles = append(singles, j)
-				continue
-			}
-			o := j.Order0
-			for b := j.From; b < j.To; b++ {
+		if first.Kind == "corpus" {
+			singles = append(singles, first)
+		} else {
+			o := first.Order0
+			for b := first.From; b < first.To; b++ {
 				for k := 0; k < sizes[b]; k++ {
 					singles = append(singles, job{Kind: "shard", Thorough: thorough, From: b, To: b + 1, SpecFrom: k, SpecTo: k + 1, Order0: o})
 					o++
 				}
 			}
 		}
-		horizon = 5 * time.Minute
-		runJobs(singles)
-		suspects := crashed
-		info := crashInfo
-		for si, j := range suspects {
+		horizon = 2 * time.Minute
+		runJobs(singles, true)
+		suspects, info := crashed, crashInfo
+		si := -1
+		for i, j := range suspects {
+			if si < 0 || j.Order0 < suspects[si].Order0 {
+				si = i
+			}
+		}
+		if si < 0 {
+			r.HarnessError("a shard crashed or hung its worker (%s) but none of its cases does so alone", clip(lostInfo[firstIdx], 400))
+		} else {
+			j := suspects[si]
 			fails := 1
 			for rep := 0; rep < 4; rep++ {
 				crashed, crashInfo = nil, map[int]string{}
-				runJobs([]job{j})
+				runJobs([]job{j}, true)
 				if len(crashed) > 0 {
 					fails++
 				}
 			}
 			crashed = nil
-			if fails < 5 {
+			switch {
+			case fails < 5:
 				r.HarnessError("a worker crash/hang did not reproduce (%d of 5): job %+v: %s", fails, j, info[si])
-				continue
+			case j.Kind == "corpus":
+				addCand(Cand{Base: "corpus|crash|" + crashClass(info[si]), Order: 1 << 41, What: j.Corpus.Name + ": the stripper or assembler kills or hangs the process: " + clip(info[si], 600), Replay: map[string]interface{}{"corpus": j.Corpus.Name, "stderr": info[si]}})
+			default:
+				specs := expand(bl[j.From], thorough)
+				s := specs[j.SpecFrom]
+				addCand(Cand{Base: "crash|" + crashClass(info[si]), Attrs: caseAttrs(&s), Order: j.Order0,
+					What:   fmt.Sprintf("the stripper or assembler kills or hangs the process (5 of 5 runs alone; %d shards lost in all): %s", len(lost), clip(info[si], 600)),
+					Replay: map[string]interface{}{"spec": s, "stderr": info[si], "how": "C06_PROBE='<spec as JSON>' ./run.sh C06 quick"}})
 			}
-			if j.Kind == "corpus" {
-				addCand(Cand{Base: "corpus|crash or hang of the stripper/assembler", Order: 1 << 41, What: j.Corpus.Name + ": worker " + info[si], Replay: map[string]interface{}{"corpus": j.Corpus.Name}})
-				continue
-			}
-			specs := expand(bl[j.From], thorough)
-			s := specs[j.SpecFrom]
-			addCand(Cand{Base: "crash|the stripper or assembler kills or hangs the process", Attrs: caseAttrs(&s), Order: j.Order0,
-				What: "worker " + clip(info[si], 600), Replay: map[string]interface{}{"spec": s, "stderr": info[si]}})
 		}
 		lap("crash isolation")
 	}
@@ -405,6 +426,19 @@ func main() {
 	}
 	lap("done")
 	r.Finish()
+}
+
+var crashRe = regexp.MustCompile(`(?m)^(fatal error: .*|panic: .*|runtime: goroutine stack exceeds.*)$`)
+
+// crashClass reduces a worker's status + stderr tail to a class: hang, or the first fatal line.
+func crashClass(info string) string {
+	if strings.HasPrefix(info, "hang") {
+		return "hang"
+	}
+	if m := crashRe.FindString(info); m != "" {
+		return errClass(m)
+	}
+	return "worker died"
 }
 
 func tail(s string, n int) string {
